@@ -259,11 +259,17 @@ def rule_E7(ctx, functions=None, only_keys=None):
                 kind = "read"
             con = "key %r: %s" % (key, kind)
             inst = (f.qualname, con)
-            present = any(
-                (a[0] == "in" and a[1] == repr(key) and a[2] == ("src", var))
-                or (a[0] == "truthy" and ("%s.get(%r" % (var, key)) in a[1])
-                or (a[0] == "truthy" and a[1].replace('"', "'") == "%s[%r]" % (var, key))
-                for a in atoms)
+            def _has_key(ats):
+                return any(
+                    (a[0] == "in" and a[1] == repr(key) and a[2] == ("src", var))
+                    or (a[0] == "truthy" and ("%s.get(%r" % (var, key)) in str(a[1]))
+                    or (a[0] == "truthy" and str(a[1]).replace('"', "'") == "%s[%r]" % (var, key))
+                    for a in ats)
+            present = _has_key(atoms)
+            if not present:
+                # the test may hide in a boolean local (is_reusable = x is not None and 'k' in x)
+                alts_ = expand_alternatives(f, fg, atoms)
+                present = bool(alts_) and all(_has_key(alt) for alt in alts_)
             stored = _dominating_store(f, n, var, key)
             st_ = _stmt(n)
             def _same_entry(e_):
